@@ -196,7 +196,16 @@ Fixpoint clone (n : node) : node :=
 Definition put_here (fo : fops) (k : opk) (p : node) (s : seg) (v : node) : rc * node :=
   match n_ty p with
   | TArr =>
-    if is_dash s then (RcOk, add_item p v)
+    if op_eqb k OIncrement then          (* 9cc9d5a: increment the addressed element (_jbl_node_find: "-" = last), never insert *)
+      match child_pos p s with
+      | Some i =>
+        match nth_error (n_ch p) i with
+        | None => (RcTargetInvalid, p)
+        | Some c => let '(r, c') := increment fo c v in (r, set_child p i c')
+        end
+      | None => (RcTargetInvalid, p)
+      end
+    else if is_dash s then (RcOk, add_item p v)
     else
       let idx := sw 32 (atoi s) in                       (* int idx = iwatoi(...) *)
       let len := Z.of_nat (length (n_ch p)) in
